@@ -390,11 +390,26 @@ theorem closure_shares_cells :
     let m : Mem := { cells := [1], owner := [0], frames := [[0]] }
     read (stepOp true (closureEnv true m 0).1 (.write 0 0 7)) (closureEnv true m 0).2 0 = 7 := by decide
 
+/-- FULL (since the repair of F08-6, fact read from getFunc): the return of an activation of a function literal — in
+    whatever goroutine it ran — leaves the whole memory, in particular the defining frame's slot array, as it is; so a
+    `go func(){…}()` statement executed again finds in the literal's slot the function value it has just stored -/
+theorem literal_return_leaves_defining_frame (m : Mem) (fr slot old : Nat) :
+    literalReturn Generated.C08.goFacts.getFuncNoDefFrameWrite m fr slot old = m := by
+  have : Generated.C08.goFacts.getFuncNoDefFrameWrite = true := by rw [gofacts_tie]; decide
+  simp [literalReturn, this]
+
+/-- WHAT THE OLD FACT ALLOWED (F08-6): slot 0 of the defining frame holds the new function value (cell 1) stored by the
+    second evaluation of the literal; an earlier activation returns and rebinds it to the old content (cell 0, the nil
+    function): the go statement that follows calls a nil function -/
+theorem literal_return_old_fact_witness :
+    let m : Mem := { cells := [0, 7], owner := [0, 0], frames := [[1]] }
+    read (literalReturn false m 0 0 0) 0 0 = 0 ∧ read (literalReturn true m 0 0 0) 0 0 = 7 := by decide
+
 /-- the locks that make the frame operations of closure creation atomic are in place (their effect is a
     matter of the Go memory model: correspondence with the race detector only) -/
 theorem locks_in_place :
     Generated.C08.goFacts.cloneLocked = true ∧ Generated.C08.goFacts.getFuncStoreLocked = true ∧
-    Generated.C08.goFacts.getFuncRestoreLocked = true ∧ Generated.C08.goFacts.selectDoneLocked = true ∧
+    Generated.C08.goFacts.getFuncNoDefFrameWrite = true ∧ Generated.C08.goFacts.selectDoneLocked = true ∧
     Generated.C08.goFacts.goBinArgsCopied = true ∧ Generated.C08.goFacts.wrapperFramePerCall = true ∧
     Generated.C08.goFacts.selectCopiesCases = true ∧ Generated.C08.goFacts.callBinGoArgsCopied = true ∧
     Generated.C08.goFacts.wrapperRecvBound = true := by
